@@ -473,5 +473,8 @@ func (s SyscallWithConditions) Assemble(p *Program, action Label) {
 		}
 		p.SetLabel(noMatch)
 	}
+
+	// The accumulator holds an argument now. Restore the syscall number for the checks that follow.
+	p.instructions = append(p.instructions, bpf.LoadAbsolute{Off: syscallNumOffset, Size: sizeOfUint32})
 	p.SetLabel(nextSyscall)
 }
